@@ -20,7 +20,7 @@ BINS = [b for b in ["h_feebump", "h_onchain"] if os.path.exists(os.path.join(_HB
 LEVEL = "proof"
 MANIFEST = {
     "category": "proof",
-    "text": "Coq theorems (all u64 inputs in stated ranges, all fee-estimator trajectories, all input lists) over fee-bumping, bump-timer and confirmation-threshold definitions regenerated from the Rust source each run; functional correspondence of each against the real functions; real channels closed unilaterally in generated states with the property's predicates (claim coverage, consensus validity and finality of every broadcast, RBF monotonicity, balance conservation and drain into spendable outputs) judged on the real node after every block.",
+    "text": "Coq theorems (all u64 inputs in stated ranges, all fee-estimator trajectories, all input lists) over fee-bumping, bump-timer and confirmation-threshold definitions regenerated from the Rust source each run; functional correspondence of each against the real functions; real channels closed unilaterally in generated states with the property's predicates (claim coverage, consensus validity and finality of every broadcast, RBF monotonicity, balance conservation and drain into spendable outputs) judged on the real node after every block; the two nodes are configured asymmetrically (to_self_delay, htlc minimum, fee estimators) and one scenario in four has a negotiated, never locked splice, so that holder/counterparty parameters and funding scopes cannot be swapped unnoticed (theorem: the reported balance is the output value in the commitment of the scope that was spent).",
     "note": "Trusted: Coq kernel, rs2v, hooks, harness + LDK test utilities, bitcoinconsensus. Script/signature validity, weights and anchor coin selection are runtime-validated only; the claim-coverage model is hand-written and trace-validated.",
     "technique": "machine-checked proof in Coq (lia/induction over regenerated definitions) + differential correspondence + implementation-side judges on real closed channels",
 }
